@@ -50,15 +50,18 @@ def _case(f, switch):
     return _strip(f['_term'], env), f['_value'], env
 
 
-def der_set_components_in_textual_order(f):
-    """SET whose present components are not in ascending tag order as written."""
-    c = _case(f, 'set_textual')
+def der_set_additions_after_root(f):
+    """SET with a present extension addition and a present root component: the implementation
+    writes the root components (tag order) and then the additions (textual order)."""
+    c = _case(f, 'set_additions_after_root')
     if c is None or f['kind'] != 'model-mismatch':
         return False
     t, v, env = c
     if not (isinstance(t, Seq) and t.is_set and isinstance(v, dict)):
         return False
-    return sum(1 for m in all_members(t) if m.name in v) >= 2
+    root = {m.name for m in t.root} | {m.name for m in t.root2}
+    present = [m.name for m in all_members(t) if m.name in v]
+    return any(n in root for n in present) and any(n not in root for n in present)
 
 
 def der_set_of_elements_in_input_order(f):
